@@ -13,12 +13,6 @@ Definition mk (a0 : ast) (B X : list triv) : ast := set_after (set_before a0 B) 
 Definition cmt_ok (raw : str) : Prop :=
   (forall i, spec_comment raw i <> [] /\ ends_nl (spec_comment raw i) = false) /\
   spec_comment_inline raw <> [] /\ ends_nl (spec_comment_inline raw) = false.
-Definition kid_ok (k : kid) : Prop :=
-  let '(g, c, a0) := k in
-  if is_cmt c then cmt_ok (craw c)
-  else a_before a0 = [] /\ a_after a0 = [] /\
-       (forall B X, R (mk a0 B X) = format_trivia B ind ++ sp ind ++ core c ++ T X ind) /\
-       core c <> [] /\ ends_nl (core c) = false.
 (* no two comments on one line *)
 Fixpoint no_double (prev : option cnode) (content : list kid) : Prop :=
   match content with
@@ -320,9 +314,36 @@ Qed.
 Lemma OUT_snoc pre x : OUT (pre ++ [x]) = OUT pre ++ LF :: R x.
 Proof. unfold OUT. rewrite flat_map_app. cbn [flat_map]. now rewrite app_nil_r. Qed.
 
+(* ---- parameters distinguishing lists from sets ---- *)
+Variable inb : bool.                                   (* an inline comment needs a binding before it *)
+Variable Tr : list triv -> nat -> str.                 (* trailing function of the item kind *)
+Variable Q1 : option str -> list (str * str) -> bool.  (* the blank line before the closer is dropped *)
+Hypothesis Tr_a0 : forall A0, Tr (a0_triv A0) ind = a0_text A0.
+Hypothesis Tr_end : forall A0 P cg W, A0_ok A0 -> P_ok P -> ends_nl W = false ->
+  Tr (a0_triv A0 ++ pend_triv P ++ Etriv cg) ind
+    ++ closing_sep (W ++ Tr (a0_triv A0 ++ pend_triv P ++ Etriv cg) ind)
+  = a0_text A0 ++ pend_text P ++ LF :: (if Q1 A0 P then [] else blank cg).
+
+Definition kid_ok (k : kid) : Prop :=
+  let '(g, c, a0) := k in
+  if is_cmt c then cmt_ok (craw c)
+  else a_before a0 = [] /\ a_after a0 = [] /\
+       (forall B X, R (mk a0 B X) = format_trivia B ind ++ sp ind ++ core c ++ Tr X ind) /\
+       core c <> [] /\ ends_nl (core c) = false.
+
+Definition can_inl (p : cnode) (g : str) : bool := (if inb then is_bind p else true) && negb (has_nl g).
+Fixpoint q1_of (content : list kid) (A0 : option str) (P : list (str * str)) (p : cnode) : bool :=
+  match content with
+  | [] => Q1 A0 P
+  | (g, c, _) :: rest =>
+      if is_cmt c then
+        if can_inl p g then q1_of rest (Some (craw c)) P c else q1_of rest A0 (P ++ [(g, craw c)]) c
+      else q1_of rest None [] c
+  end.
+
 Definition item_ok (c0 : cnode) (a0 : ast) : Prop :=
   a_before a0 = [] /\ a_after a0 = [] /\
-  (forall B X, R (mk a0 B X) = format_trivia B ind ++ sp ind ++ core c0 ++ T X ind) /\
+  (forall B X, R (mk a0 B X) = format_trivia B ind ++ sp ind ++ core c0 ++ Tr X ind) /\
   core c0 <> [] /\ ends_nl (core c0) = false.
 
 (* the invariant of the sequence reader, for a state whose last item is still "open" *)
@@ -330,13 +351,14 @@ Lemma pds_tail cg : forall content pre P A0 c0 a0 B p,
   Forall kid_ok content -> no_double (Some p) content ->
   item_ok c0 a0 -> A0_ok A0 -> P_ok P ->
   (is_cmt p = false -> P = [] /\ A0 = None) ->
-  BT (fst (finish (fst (pds false content (pre ++ [mk a0 B (a0_triv A0)]) (pend_triv P) (Some p)))
-                  (snd (pds false content (pre ++ [mk a0 B (a0_triv A0)]) (pend_triv P) (Some p))) cg))
+  BT (fst (finish (fst (pds inb content (pre ++ [mk a0 B (a0_triv A0)]) (pend_triv P) (Some p)))
+                  (snd (pds inb content (pre ++ [mk a0 B (a0_triv A0)]) (pend_triv P) (Some p))) cg))
   = OUT pre ++ LF :: format_trivia B ind ++ sp ind ++ core c0 ++ a0_text A0 ++ pend_text P
-        ++ seq_lines core false ind (map strip2 content) (Some p) true ++ LF :: blank cg.
+        ++ seq_lines core inb ind (map strip2 content) (Some p) true
+        ++ LF :: (if q1_of content A0 P p then [] else blank cg).
 Proof.
   induction content as [|[[g c] a] rest IH]; intros pre P A0 c0 a0 B p Hk Hd Hi HA HP Hp.
-  - cbn [pds fst snd map seq_lines app]. rewrite finish_open. unfold BT.
+  - cbn [pds fst snd map seq_lines app q1_of]. rewrite finish_open. unfold BT.
     destruct Hi as (Hb0 & Ha0 & HR & Hne & Hend).
     set (X := a0_triv A0 ++ pend_triv P ++ Etriv cg).
     assert (HRx : R (mk a0 B X) <> []).
@@ -347,27 +369,23 @@ Proof.
     set (W := format_trivia B ind ++ sp ind ++ core c0).
     assert (HW : ends_nl W = false).
     { unfold W. rewrite !app_assoc. rewrite ends_nl_app by exact Hne. exact Hend. }
-    replace (format_trivia B ind ++ sp ind ++ core c0 ++ T X ind) with (W ++ T X ind)
+    replace (format_trivia B ind ++ sp ind ++ core c0 ++ Tr X ind) with (W ++ Tr X ind)
       by (unfold W; repeat rewrite <- app_assoc; reflexivity).
-    pose proof (end_tail A0 P cg W HA HP HW) as Het. fold X in Het. unfold closing_sep in Het.
+    pose proof (Tr_end A0 P cg W HA HP HW) as Het. fold X in Het. unfold closing_sep in Het.
     rewrite <- app_assoc. cbn [app]. rewrite <- app_assoc. rewrite Het.
     unfold W. repeat rewrite <- app_assoc. reflexivity.
   - inversion Hk as [|? ? Hk1 Hk2]; subst. destruct Hd as [Hd1 Hd2].
-    cbn [pds map strip2 fst snd seq_lines].
+    cbn [pds map strip2 fst snd seq_lines q1_of].
     assert (Hitems : (match pre ++ [mk a0 B (a0_triv A0)] with [] => true | _ => false end) = false)
       by (destruct pre; reflexivity).
     rewrite Hitems. cbn [kid_ok] in Hk1.
     destruct (is_cmt c) eqn:Ec.
-    + cbn [negb andb]. rewrite andb_true_r.
-      destruct (has_nl g) eqn:Eg; cbn [negb].
-      * (* own-line comment: joins the pending list *)
-        rewrite <- app_assoc. rewrite <- pend_triv_snoc.
-        rewrite (IH pre (P ++ [(g, craw c)]) A0 c0 a0 B c Hk2 Hd2 Hi HA).
-        -- rewrite pend_text_snoc. unfold spec_comment. repeat rewrite <- app_assoc. reflexivity.
-        -- unfold P_ok. apply Forall_app. split; [exact HP|]. constructor; [exact Hk1|constructor].
-        -- rewrite Ec. discriminate.
+    + cbn [negb andb]. rewrite !andb_true_r. fold (can_inl p g).
+      destruct (can_inl p g) eqn:Ecan.
       * (* inline comment: attaches to the open item *)
-        specialize (Hd1 eq_refl eq_refl). destruct (Hp Hd1) as [-> ->].
+        assert (Eg : has_nl g = false).
+        { unfold can_inl in Ecan. apply andb_prop in Ecan. destruct Ecan as [_ E]. now destruct (has_nl g). }
+        specialize (Hd1 eq_refl Eg). destruct (Hp Hd1) as [-> ->].
         cbn [pend_triv flat_map app a0_triv]. rewrite gap_trivia_no_nl by exact Eg.
         rewrite append_after_snoc, mk_after, mk_set_after. cbn [app].
         change [TC (mk_inline (comment_from_cst (craw c)))] with (a0_triv (Some (craw c))).
@@ -377,6 +395,12 @@ Proof.
         -- exact Hk1.
         -- constructor.
         -- rewrite Ec. discriminate.
+      * (* own-line comment: joins the pending list *)
+        rewrite <- app_assoc. rewrite <- pend_triv_snoc.
+        rewrite (IH pre (P ++ [(g, craw c)]) A0 c0 a0 B c Hk2 Hd2 Hi HA).
+        -- rewrite pend_text_snoc. unfold spec_comment. repeat rewrite <- app_assoc. reflexivity.
+        -- unfold P_ok. apply Forall_app. split; [exact HP|]. constructor; [exact Hk1|constructor].
+        -- rewrite Ec. discriminate.
     + (* a new item: the open item is closed, the pending comments become its [before] *)
       destruct Hk1 as (Hb & Ha & HRc & Hnec & Hendc).
       rewrite mk_fresh by assumption.
@@ -384,11 +408,7 @@ Proof.
       change (@nil triv) with (pend_triv []).
       rewrite (IH (pre ++ [mk a0 B (a0_triv A0)]) [] None c a (pend_triv P ++ gap_trivia g) c Hk2 Hd2).
       * rewrite OUT_snoc. destruct Hi as (_ & _ & HR & _ & _). rewrite HR.
-        assert (HT0 : T (a0_triv A0) ind = a0_text A0).
-        { destruct A0 as [r0|]; [|reflexivity]. cbn [a0_triv a0_text]. rewrite T_inline by reflexivity.
-          cbn [format_trivia]. unfold trim_trailing. cbn [rev app is_layout negb andb ends_nl nl_prefix].
-          rewrite app_nil_r. reflexivity. }
-        rewrite HT0. cbn [a0_text pend_text flat_map app].
+        rewrite Tr_a0. cbn [a0_text pend_text flat_map app].
         rewrite format_trivia_app, format_trivia_gap.
         repeat rewrite <- app_assoc. rewrite pend_shift. cbn [app]. repeat rewrite <- app_assoc. reflexivity.
       * repeat split; assumption.
@@ -399,18 +419,25 @@ Qed.
 
 Definition has_item (content : list kid) : bool :=
   existsb (fun k => negb (is_cmt (snd (fst k)))) content.
+(* q1 before the first item: nothing can be dropped until an item exists *)
+Fixpoint q1_start (content : list kid) : bool :=
+  match content with
+  | [] => false
+  | (g, c, _) :: rest => if is_cmt c then q1_start rest else q1_of rest None [] c
+  end.
 
 (* start phase: no item yet; [Q] is the trivia collected so far, [qt] its text in spec form *)
 Lemma pds_start cg : forall content Q qt p,
   Forall kid_ok content -> no_double (Some p) content -> is_cmt p = true ->
   (forall Z, LF :: format_trivia Q ind ++ Z = qt ++ LF :: Z) ->
   has_item content = true ->
-  BT (fst (finish (fst (pds false content [] Q (Some p))) (snd (pds false content [] Q (Some p))) cg))
-  = qt ++ seq_lines core false ind (map strip2 content) (Some p) false ++ LF :: blank cg.
+  BT (fst (finish (fst (pds inb content [] Q (Some p))) (snd (pds inb content [] Q (Some p))) cg))
+  = qt ++ seq_lines core inb ind (map strip2 content) (Some p) false
+       ++ LF :: (if q1_start content then [] else blank cg).
 Proof.
   induction content as [|[[g c] a] rest IH]; intros Q qt p Hk Hd Hpc HQ Hhas; [discriminate|].
   inversion Hk as [|? ? Hk1 Hk2]; subst. destruct Hd as [Hd1 Hd2].
-  cbn [pds map strip2 fst snd seq_lines]. cbn [kid_ok] in Hk1.
+  cbn [pds map strip2 fst snd seq_lines q1_start]. cbn [kid_ok] in Hk1.
   destruct (is_cmt c) eqn:Ec.
   - cbn [negb andb]. rewrite !andb_false_r.
     cbn [has_item existsb fst snd] in Hhas. rewrite Ec in Hhas. cbn [negb orb] in Hhas.
@@ -431,7 +458,7 @@ Proof.
     repeat rewrite <- app_assoc. rewrite HQ. repeat rewrite <- app_assoc. reflexivity.
 Qed.
 
-Lemma parse_seq_finish inb g0 c a rest cg :
+Lemma parse_seq_finish g0 c a rest cg :
   parse_seq inb ((g0, c, a) :: rest) (Some cg) true [] =
   finish (fst (pds inb ((g0, c, a) :: rest) [] (if has_empty_line g0 then [EmptyLine] else []) None))
          (snd (pds inb ((g0, c, a) :: rest) [] (if has_empty_line g0 then [EmptyLine] else []) None)) cg.
@@ -441,11 +468,12 @@ Proof.
   cbn [fst snd]. destruct before; destruct items; reflexivity.
 Qed.
 
-(* whole body of a multi-line list with at least one item *)
-Theorem list_body cg content :
+(* whole body of a multi-line container with at least one item *)
+Theorem seq_body cg content :
   Forall kid_ok content -> no_double None content -> has_item content = true ->
-  BT (fst (parse_seq false content (Some cg) true []))
-  = seq_lines core false ind (map strip2 content) None false ++ LF :: blank cg.
+  BT (fst (parse_seq inb content (Some cg) true []))
+  = seq_lines core inb ind (map strip2 content) None false
+      ++ LF :: (if q1_start content then [] else blank cg).
 Proof.
   intros Hk Hd Hhas. destruct content as [|[[g0 c] a] rest]; [discriminate|].
   inversion Hk as [|? ? Hk1 Hk2]; subst. destruct Hd as [_ Hd2].
@@ -453,7 +481,7 @@ Proof.
   set (before0 := if has_empty_line g0 then [EmptyLine] else []).
   assert (Hb0 : format_trivia before0 ind = blank g0).
   { unfold before0, blank. destruct (has_empty_line g0); reflexivity. }
-  cbn [pds map strip2 fst snd seq_lines]. cbn [kid_ok] in Hk1.
+  cbn [pds map strip2 fst snd seq_lines q1_start]. cbn [kid_ok] in Hk1.
   destruct (is_cmt c) eqn:Ec.
   - cbn [has_item existsb fst snd] in Hhas. rewrite Ec in Hhas. cbn [negb orb] in Hhas.
     rewrite (pds_start cg rest (before0 ++ [TC (comment_from_cst (craw c))])
@@ -473,4 +501,4 @@ Qed.
 
 End ListSeq.
 
-Print Assumptions list_body.
+Print Assumptions seq_body.
